@@ -8,6 +8,21 @@ BASELINE = ("cd /repo && cargo nextest run --workspace --no-fail-fast --tool-con
 
 # id -> (engine, category, technique, level text, level note, design ref)
 CHECKS = {
+ "C04": ("mc-sem", "translation_validation",
+         "exhaustive program enumeration evaluated by a reference evaluator written from LANGUAGE.md and by wac; E2 provenance equality on the encoded bytes",
+         "Programs = a fixed prefix binding every kind of value the name-inference rules distinguish (imports by path / inline type / `as`, an instance from `new`, accesses, named accesses, a let alias) followed by one `new` whose argument list is the product of per-import supply modes (omitted, inferred via each bound name, named by identifier, named by string, mismatching) x spreads x `...` x argument order, every export form (plain, `as` id / string, spread, after a conflicting export, nested, last-segment access), 21 single-fault variants and nested `new`; ~15k programs quick, ~40k thorough. Each program's outcome class must equal the reference evaluator's (the diagnostic the reference names, or a composition), and for compositions the independent E2 reading of the bytes (instantiations with per-name argument provenance, exports, explicit imports) must equal the evaluator's.",
+         "Trusts the evaluator (DESIGN.md A.4) and the E2 reader. Library LibL covers plain names, interface paths with and without versions, ambiguous and unique last segments; type compatibility is the resource-free structural rule.",
+         "DESIGN.md §5 C04, §4 E5, A.4"),
+ "C05": ("mc-sem", "translation_validation",
+         "exhaustive enumeration of generated WIT packages encoded by wac and by the reference WIT toolchain, compared inside one validator",
+         "Every package of the bounded WIT enumeration (all type declarations x function shapes, pairs of declarations, dependent declarations, resources with every member subset, `use` chains / diamonds / renames / derived types over every base declaration, world-level use / types / inline interfaces / paths / include with 0-2 renames, versioned and unversioned; ~500 packages quick, ~830 thorough) is parsed, resolved and encoded by wac as a WAC document and encoded by wit-component; both artefacts are nested in one wrapper component validated once: every interface type must be a mutual subtype of the reference's (wasmparser is_subtype_of), every world must have the same explicit imports and exports with equal canonical types.",
+         "Trusts wit-parser/wit-component 0.247 as the reference WIT semantics and wasmparser's subtyping. Interfaces a world depends on only through `use` are not 'explicit imports' (wac encodes them types-only) and are compared by presence.",
+         "DESIGN.md §5 C05, §4 E3"),
+ "C11": ("mc-sem", "exploration",
+         "exhaustive (world, composition) table: resolution verdict, stand-alone validate_target on the encoded output and reference component subtyping must agree",
+         "7 generated worlds (function / interface / interface using another interface / versioned names; 0-2 imports, 1-2 exports) x conforming compositions and every single perturbation (extra implicit / explicit / interface import, missing export, export under another name, type change in an import or export, fewer imports, more exports, other compatible version): resolution must accept exactly the conforming ones with the corresponding diagnostic class otherwise; the stand-alone validate_target applied to the encoded output and wasmparser's component subtyping output <= world (one wrapper) must give the same verdict.",
+         "Worlds and implementation components come from generated WIT through wit-component; all resource-free. The table is small (35 pairs) but complete for its shapes.",
+         "DESIGN.md §5 C11"),
  "C16": ("mc-sem", "model_checking",
          "exhaustive input/history enumeration re-executed under an enumerated set of process hash seeds (LD_PRELOAD getrandom shim, single-threaded workers) and independent in-process rebuilds; SHA-256 equality",
          "Inputs: every state of bounded E1 explorations over the C06, C03 and C02 universes, histories that define base types after their dependants and create many same-rank nodes, every .wac file of the repository's test and example directories (parse, print, discover, resolve with the neighbouring packages, encode, rendered diagnostics), the two-position document family of C17 and multi-fault documents (several faults of one class in one document). Each input is processed twice per process (fresh hash maps) in 8 (quick) / 32 (thorough) worker processes whose std hash seed is an explicit input; encoded bytes in both dependency modes, printed text, rendered diagnostics, imports() listings and clone-vs-original encodings must be identical over all executions.",
